@@ -149,10 +149,13 @@ def record(args):
                 s0 = float(rng.choice([0.1, 0.5, 1.0]))
                 scales = [s0, 2 * s0]
             dets = []
+            # integer-valued data go to the detector as int64 half of the time; the per-split reference values are
+            # always computed from the float copy
+            Xin = X.astype(np.int64) if (not r1) and np.all(X == np.round(X)) and rng.integers(0, 2) else X
             for sc_ in scales:
                 det = Det(**{kw: mk()}, threshold_scale=sc_, min_segment_length=m, max_interval_length=L,
-                          growth_factor=g).fit(X)
-                y = det.predict(X)
+                          growth_factor=g).fit(Xin)
+                y = det.predict(Xin)
                 dets.append((det, y))
             det, y = dets[0]
             tabdf = det.scores
